@@ -34,8 +34,8 @@ DIMS = {"length": udims.length, "mass": udims.mass, "time": udims.time}
 RDIMS = {"length": rd.length, "mass": rd.mass, "time": rd.time}
 PROBES = ["foo", "kfoo", "foo/s", "foo**2", "Msun", "kMsun" if False else "Msun/foo", "m", "km", "kg", "bar2"]
 ROUTES1 = ["plain", "lut", "cgs"]
-DERIVE = ["fresh", "fresh-lut", "json", "pickle", "deepcopy", "deepcopy-unit", "unitcopy-deep", "from-quantity-copy"]
-DERIVE_QUICK = ["fresh", "json", "deepcopy", "deepcopy-unit", "from-quantity-copy", "unitcopy-deep"]
+DERIVE = ["fresh", "fresh-lut", "json", "pickle", "deepcopy", "deepcopy-unit", "unitcopy-deep", "from-quantity-copy", "deepcopy-of-default"]
+DERIVE_QUICK = ["fresh", "json", "deepcopy", "deepcopy-unit", "deepcopy-of-default"]
 
 
 def events_for(tier):
@@ -51,9 +51,9 @@ def events_for(tier):
         ]
     ev += [("usys", 1), ("names", 1), ("unit", 1, "foo/s")]
     ev += [("derive", r) for r in (DERIVE if tier == "thorough" else DERIVE_QUICK)]
-    ev += [("mixed", 1, 2), ("mixedD", 1), ("Dmod",), ("Drem",), ("prt", 1)]
+    ev += [("mixed", 1, 2), ("mixedD", 1), ("Dmod",), ("Drem",), ("toUnit", 1, 2), ("toD", 1), ("define", 2, "zzz")]
     if tier == "thorough":
-        ev += [("add", 1, "bar2", 7.0, "time", False), ("add", 2, "m", 5.0, "length", False), ("rem", 2, "Msun"), ("conv", 1), ("conv", 2),
+        ev += [("prt", 1), ("toUnit", 2, 1), ("toD", 2), ("define", 1, "zzz"), ("add", 1, "bar2", 7.0, "time", False), ("add", 2, "m", 5.0, "length", False), ("rem", 2, "Msun"), ("conv", 1), ("conv", 2),
                ("usys", 2), ("names", 2), ("unit", 2, "foo/s"), ("unit", 1, "kMsun"), ("unit", 2, "kMsun"), ("mixed", 2, 1), ("jrt", 1)]
     return ev
 
@@ -87,6 +87,9 @@ def derive(w, route):
     r1 = w.regs[1]
     if route in ("fresh", "fresh-lut"):
         return new_registry(route), {}
+    if route == "deepcopy-of-default":
+        # an independent registry obtained by deep-copying data bound to the DEFAULT registry
+        return copy.deepcopy(unyt.unyt_quantity(3.0, "km")).units.registry, {}
     if route == "json":
         r2 = UnitRegistry.from_json(r1.to_json())
     elif route == "pickle":
@@ -209,6 +212,32 @@ def apply_event(w, ev):
             a + b
             a * b
             return "ok"
+        if k == "toUnit":
+            i, j = ev[1], ev[2]
+            if i not in w.regs or j not in w.regs:
+                return "skip"
+            a = arr(w.regs[i], "km")
+            a.to(Unit("km", registry=w.regs[j]))
+            a.in_units(Unit("m", registry=w.regs[j]))
+            a.to_value(Unit("km", registry=w.regs[j]))
+            return "ok"
+        if k == "toD":
+            if ev[1] not in w.regs:
+                return "skip"
+            a = arr(w.regs[ev[1]], "km")
+            a.to(unyt.km)
+            a.in_units(unyt.m)
+            a.copy().convert_to_units(unyt.km)
+            (a * unyt.km).to(unyt.km**2)
+            return "ok"
+        if k == "define":
+            if ev[1] not in w.regs:
+                return "skip"
+            from unyt.unit_object import define_unit
+
+            define_unit(ev[2], (2.0, "m"), registry=w.regs[ev[1]])
+            w.T[ev[1]][ev[2]] = (2.0, RDIMS["length"], False)
+            return "ok"
         if k == "mixedD":
             a = arr(w.regs[ev[1]], "Msun")
             b = unyt.unyt_array(np.array([3.0, 4.0]), "Msun")
@@ -276,7 +305,10 @@ class System:
             if ev[0] == "derive" and got == "ok":
                 w.derive_index = idx
             if is_edit(ev) and ev[1] in w.T and got != "skip":
-                want = ref_apply(w.T[ev[1]], ev)
+                if ev[1] == 2 and w.route2 == "deepcopy-of-default" and ev[0] in ("modf", "rem"):
+                    want = "raise"  # a copy of the default registry keeps its class: modify/remove refuse by design
+                else:
+                    want = ref_apply(w.T[ev[1]], ev)
                 w.edit_results.append((ev, want, got, idx))
             w.log.append(got.split(":")[0])
         return w
@@ -300,7 +332,9 @@ class System:
         for ev in self.events:
             if ev[0] == "derive" and 2 in w.regs:
                 continue
-            if ev[0] in ("add", "modf", "rem", "unit", "mul", "usys", "names", "conv") and ev[1] not in w.regs:
+            if ev[0] in ("add", "modf", "rem", "unit", "mul", "usys", "names", "conv", "toD", "define") and ev[1] not in w.regs:
+                continue
+            if ev[0] == "toUnit" and 2 not in w.regs:
                 continue
             if ev[0] == "mixed" and 2 not in w.regs:
                 continue
@@ -325,6 +359,18 @@ class System:
                 ctx.violation(f"C13|default|op={ev[0]}|mode=default-registry-accepted-an-edit", case, "refusal", got)
         if world.lut_delta(default_unit_registry.lut) or not world.default_table_intact():
             ctx.violation(f"C13|default|last={last}|mode=default-table-written", case, None, str(world.lut_delta(default_unit_registry.lut))[:200])
+        # exported units stay bound to the default registry; each registry's string memo hands out units bound to itself
+        for n in ("km", "m", "cm", "hr", "kg"):
+            if getattr(unyt, n).registry is not default_unit_registry:
+                ctx.violation(f"C13|default|name={n}|last={last}|mode=exported-unit-rebound-to-another-registry", case, "default registry", None)
+                break
+        for i, r in sorted(w.regs.items()):
+            for n in ("km", "m"):
+                if Unit(n, registry=r).registry is not r:
+                    ctx.violation(f"C13|isolation|registry={i}|last={last}@{last_target}|mode=registry's-own-unit-rebound-to-another-registry", dict(case, registry=i), None, None)
+                    break
+        if set(vars(unyt)) - world._PRISTINE_UNYT_NAMES:
+            ctx.violation(f"C13|default|last={last}|mode=name-exported-into-unyt-namespace", case, None, sorted(set(vars(unyt)) - world._PRISTINE_UNYT_NAMES)[:5])
         if namespace_digest() != _NS_PROBE:
             ctx.violation(f"C13|default|last={last}|mode=unyt-namespace-changed", case, None, None)
         if builtin_conversions() != _BUILTIN_CONV:
